@@ -62,7 +62,8 @@ CtlUnits(units) == SelectSeq(units, LAMBDA u : u.c \in ControlClasses)
 UnitsExact(o, dd) ==
     LET got == CtlUnits(o.units)  exp == ExpectedUnits(dd) IN
     /\ Len(got) = Len(exp)
-    /\ {[c |-> got[i].c, r |-> got[i].r, s |-> got[i].s, no |-> got[i].no, ins |-> got[i].ins] : i \in 1..Len(got)}
+    /\ {[c |-> got[i].c, r |-> got[i].r, s |-> got[i].s, no |-> got[i].no,
+          ins |-> [x \in 1..Len(got[i].ins) |-> <<got[i].ins[x][1], 0, got[i].ins[x][3]>>]] : i \in 1..Len(got)}
        = {exp[i] : i \in 1..Len(exp)}
 
 BuildWhy(dd, o) ==
